@@ -378,6 +378,9 @@ package main
 // time (taking the mutex again would forget it), so attempts arriving meanwhile are refused by the gate
 //@   atcall github.com/pquerna/otp/totp.Validate requires (passcode string, secret string) :: hasKey(state.totpLocalRateLimit, username) && timeNanos(state.totpLocalRateLimit[username].lastCheckTime) == nowNanos()  #C14.totp-gate-published @C14,C16
 //@   ensures ret0 && ret1 == nil ==> state.totpLocalRateLimit[username].failCount == 0                     #C14.totp-reset-on-success @C14
+// ... and an accepted code leaves the gate closed: the stamp of this attempt stays in the table, so that a second
+// presentation that read the profile before the accepted period was saved is still turned away by the two-second gate
+//@   ensures ret0 && ret1 == nil ==> hasKey(state.totpLocalRateLimit, username) && timeNanos(state.totpLocalRateLimit[username].lastCheckTime) == nowNanos()   #C16.accepted-code-leaves-the-gate-closed @C16,C14
 //@   ensures sincefirstlock !ret0 && ret1 == nil && state.totpLocalRateLimit[username].failCount != old(state.totpLocalRateLimit[username].failCount) && state.totpLocalRateLimit[username].failCount % 5 == 0 ==> timeNanos(state.totpLocalRateLimit[username].lockoutExpirationTime) >= nowNanos() + 3600000000000  #C14.totp-lockout-escalates @C14
 //@   ensures sincefirstlock !ret0 && ret1 == nil && old(state.totpLocalRateLimit[username].failCount) < 4000000000 && timeNanos(old(state.totpLocalRateLimit[username].lastCheckTime)) + 2000000000 <= nowNanos() && timeNanos(old(state.totpLocalRateLimit[username].lockoutExpirationTime)) <= nowNanos() && ghostProfile.LastSuccessfullTOTPCounter != totpPeriodOf(t) ==> state.totpLocalRateLimit[username].failCount >= 1  #C14.totp-failure-counted @C14
 //@   ensures sincefirstlock !ret0 && ret1 == nil && old(state.totpLocalRateLimit[username].failCount) < 4000000000 && timeNanos(old(state.totpLocalRateLimit[username].lastCheckTime)) + 2000000000 <= nowNanos() && timeNanos(old(state.totpLocalRateLimit[username].lockoutExpirationTime)) <= nowNanos() && ghostProfile.LastSuccessfullTOTPCounter != totpPeriodOf(t) && timeNanos(old(state.totpLocalRateLimit[username].lastFailTime)) + 86400000000000 >= nowNanos() ==> state.totpLocalRateLimit[username].failCount == old(state.totpLocalRateLimit[username].failCount) + 1  #C14.totp-failures-accumulate-within-a-day @C14
